@@ -974,6 +974,7 @@ def run_frames(ctx, built):
         cases.append((s, fc[1]))
         lines.append(fc[0])
     outs = core.run_driver('C19', lines)
+    opposite = []
     for (s, exp), ans in zip(cases, outs):
         desc = {'kind': 'construct', 'spec': jsonable_spec(s)}
         if ans == 'err:opposite':
@@ -983,6 +984,7 @@ def run_frames(ctx, built):
             if 'delta' in s:
                 ctx.hit('frame/near-opposite')
             ctx.case((s['cls'], 'frame', 'opposite'))
+            opposite.append((s, exp, desc))
             continue
         ctx.hit('frame/' + s['cls'])
         if 'delta' in s:
@@ -992,6 +994,35 @@ def run_frames(ctx, built):
         ftol = 4e-12 + (4 * s['delta'] if s.get('delta', 1.0) <= 2e-8 else 0.0)
         if m is None or any(not close(m[k], v, ftol) for k, v in exp.items()):
             ctx.disagree(desc, {k: np.asarray(v).tolist() for k, v in exp.items()}, ans, stream='frame')
+    frames_opposite(ctx, opposite)
+
+
+def frames_opposite(ctx, opposite):
+    """round 4: constructor frames for principal vectors opposite / nearly opposite to the default
+    (outside the generic-branch frame model) against the model of transform_system as coded
+    (tsMatrix3: collinear branch of rotation_matrix_from_to resp. ill-conditioned generic branch)"""
+    cpi, spi = float(np.cos(np.pi)), float(np.sin(np.pi))
+    lines = []
+    for s, exp, desc in opposite:
+        if s['cls'] == 'par3e':
+            d, given = [0.0, 1.0, 0.0], s['pos']
+        else:
+            d, given = [0.0, 0.0, 1.0], s['axis']
+        lines.append('tsys dim=3 d={} p={} pi={}'.format(vec(d), vec(given), fl([cpi, spi])))
+    for (s, exp, desc), ans in zip(opposite, core.run_driver('C19', lines)):
+        ctx.hit('frame/opposite/tsys-model/' + s['cls'])
+        m = parse_ans('ok ' + ans.split()[2]) if ans.startswith('ok') else None
+        if m is None:
+            ctx.disagree(desc, {k: np.asarray(v).tolist() for k, v in exp.items()}, ans, stream='frame-opposite')
+            continue
+        M = np.asarray(m['m'], dtype=float).reshape(3, 3)
+        dflt = {'pos': [0.0, 1.0, 0.0], 'a0': [1.0, 0.0, 0.0], 'a1': [0.0, 0.0, 1.0]}
+        given = np.asarray(s['pos'] if s['cls'] == 'par3e' else s['axis'], dtype=float)
+        th = float(np.linalg.norm(np.cross(_unit(given), [0.0, 1.0, 0.0] if s['cls'] == 'par3e' else [0.0, 0.0, 1.0])))
+        tol = 4e-12 + (8e-16 / th if th >= 1e-10 else 0.0)
+        bad = [k for k, v in exp.items() if k in dflt and not close(M.dot(dflt[k]), v, tol)]
+        if bad:
+            ctx.disagree(desc, {k: np.asarray(exp[k]).tolist() for k in bad}, ans, stream='frame-opposite:' + ','.join(bad))
 
 
 def run_points(ctx, specs, npts):
@@ -2277,7 +2308,8 @@ MODEL_BRANCHES = (
        'model/shifts/fan', 'model/shifts/cone', 'model/pitch',
        'construct/cone/rejects-parallel-src_to_det',
        'frame/par2', 'frame/fan', 'frame/par3a', 'frame/par3e', 'frame/cone', 'frame/opposite(oracle only)',
-       'frame/near-default', 'frame/near-opposite',
+       'frame/near-default', 'frame/near-opposite', 'frame/opposite/tsys-model/par3a',
+       'frame/opposite/tsys-model/par3e', 'frame/opposite/tsys-model/cone',
        'shape/ok', 'shape/err', 'shape/scalar-squeeze',
        'getitem/par2', 'getitem/par3a', 'getitem/fan', 'getitem/cone', 'getitem/par3e',
        'getitem/model/par2/ctor', 'getitem/model/par2/frommatrix', 'getitem/model/par3a/ctor-given',
